@@ -34,12 +34,14 @@ QUEUE_TYPES = {"deque", "Queue", "collections.deque", "asyncio.Queue", "asyncio.
 SOURCE_CALLABLE_PARAMS = {"ssl_object_method"}
 # delivering calls
 SINK_METHODS = {"next", "write", "put_nowait", "append", "appendleft", "set_result", "feed", "buffer_updated", "extend", "send", "asend",
-                "build_packet_from_datagram", "build_packet_from_buffer", "build_packet_from_chunks", "__parse_datagram"}
+                "build_packet_from_datagram", "build_packet_from_buffer", "build_packet_from_chunks", "__parse_datagram",
+                "handle", "start_soon"}  # hand-over to the per-datagram task (listener serve context)
 SINK_WRAPPERS = {"SendAction", "ThrowAction", "bytes", "tuple", "memoryview"}
 
 
 class HoldAnalysis(RuleAnalysis):
     tokens = ("OSError", "Exception", CANCELLED, "BaseException")
+    inline_helpers = True  # a block extracted into a private helper (`self._build_packet(datagram)`) is interpreted in place
 
     def __init__(self, engine, sync_timeouts: bool = False) -> None:
         super().__init__(engine)
